@@ -13,5 +13,5 @@ CONSTANTS
 VIEW view
 CONSTRAINT Bound
 INVARIANTS TypeOK SnapshotsNested RevertRestoresExactly
-PROPERTIES ResetQuirk RevertStep ReopenEqualsContent FinalisedClean DiskStable ProofYieldsValueOrAbsence
+PROPERTIES CopyIndependent ResetQuirk RevertStep ReopenEqualsContent FinalisedClean DiskStable ProofYieldsValueOrAbsence
 CHECK_DEADLOCK FALSE
